@@ -116,7 +116,7 @@ func (br *bodyRun) appendOp(st *State, c *ssa.CallCommon, args []Val) Val {
 func (fc *FnCtx) mapKeySort(mt *types.Map) string {
 	kt := mt.Key()
 	if isString(kt) {
-		return "Int" // content identity, see strId
+		return bvsort(64) // content identity, see strId
 	}
 	ls := leavesOf(kt)
 	if len(ls) != 1 {
